@@ -54,6 +54,8 @@ GenActs ==
   \cup {[op |-> "bdata", h |-> h, kind |-> "big", start |-> st, bytes |-> b]
           : h \in {RandomElement(Hs)}, st \in RandomSubset(1, {<<0, 0, 4, 0>>, <<1022, 1023, 1023, 3>>, <<5, 6, 7, 2>>}),
             b \in RandomSubset(1, AllByteStrs)}
+  \cup {[op |-> "bsetrun", h |-> h, lo |-> RandomElement({0, 1, 63, 512}),
+          cnt |-> RandomElement({0, 1, 64, 255, 256, 257, 512})] : h \in OkHs}
   \cup {[op |-> "brev", h |-> h, d |-> d] : h \in OkHs, d \in Hs}
   \cup UNION {{[op |-> "bgetn", h |-> h, dir |-> dir, n |-> n]
                  : dir \in {"f", "r"}, n \in {0, 1, 2, SLen(h), SLen(h) + 1, 2000}} : h \in OkHs}
